@@ -1,11 +1,49 @@
 use crate::engine::case::Prop;
 
+pub mod c01;
+pub mod c02;
+pub mod c03;
 pub mod c04;
+pub mod c05;
+pub mod c06;
+pub mod c07;
 pub mod c08;
+pub mod c09;
+pub mod c10;
+pub mod c11;
+pub mod c12;
 pub mod c13;
+pub mod c14;
+pub mod c15;
+pub mod c16;
+pub mod c17;
+pub mod c18;
+pub mod c19;
+pub mod c20;
 
 pub fn all() -> Vec<&'static dyn Prop> {
-    vec![&c04::C04, &c08::C08, &c13::C13]
+    let mut v: Vec<&'static dyn Prop> = vec![];
+    v.extend(c01::prop());
+    v.extend(c02::prop());
+    v.extend(c03::prop());
+    v.extend(c04::prop());
+    v.extend(c05::prop());
+    v.extend(c06::prop());
+    v.extend(c07::prop());
+    v.extend(c08::prop());
+    v.extend(c09::prop());
+    v.extend(c10::prop());
+    v.extend(c11::prop());
+    v.extend(c12::prop());
+    v.extend(c13::prop());
+    v.extend(c14::prop());
+    v.extend(c15::prop());
+    v.extend(c16::prop());
+    v.extend(c17::prop());
+    v.extend(c18::prop());
+    v.extend(c19::prop());
+    v.extend(c20::prop());
+    v
 }
 
 pub fn get(id: &str) -> Option<&'static dyn Prop> {
